@@ -1425,6 +1425,7 @@ struct noned_state {
   struct mspack_file *o;
   unsigned char *buf;
   int bufsize;
+  int error;
 };
 
 static struct noned_state *noned_init(struct mspack_system *sys,
@@ -1440,6 +1441,7 @@ static struct noned_state *noned_init(struct mspack_system *sys,
     state->o       = out;
     state->buf     = buf;
     state->bufsize = bufsize;
+    state->error   = MSPACK_ERR_OK;
   }
   else {
     sys->free(buf);
@@ -1451,10 +1453,13 @@ static struct noned_state *noned_init(struct mspack_system *sys,
 
 static int noned_decompress(struct noned_state *s, off_t bytes) {
   int run;
+  /* like the other decompressors, stay failed once failed: the input
+   * position and the output offset are no longer in step after an error */
+  if (s->error) return s->error;
   while (bytes > 0) {
     run = (bytes > s->bufsize) ? s->bufsize : (int) bytes;
-    if (s->sys->read(s->i, &s->buf[0], run) != run) return MSPACK_ERR_READ;
-    if (s->sys->write(s->o, &s->buf[0], run) != run) return MSPACK_ERR_WRITE;
+    if (s->sys->read(s->i, &s->buf[0], run) != run) return s->error = MSPACK_ERR_READ;
+    if (s->sys->write(s->o, &s->buf[0], run) != run) return s->error = MSPACK_ERR_WRITE;
     bytes -= run;
   }
   return MSPACK_ERR_OK;
